@@ -62,7 +62,7 @@ BR = [0, 0, 0, 0, 0, 1, 1]
 _ADS = {}
 
 
-def make_iso(rp, rl, rm, tunit, T, ads_props, mat_props, tag=''):
+def make_iso(rp, rl, rm, tunit, T, ads_props, mat_props, tag='', P=None, L=None, B=None, index=None):
     import pygaps
     # NB: PointIsotherm(adsorbate=<Adsorbate object>) raises AttributeError in the pinned tree (`None in [material,
     # adsorbate, temperature]` calls Adsorbate.__eq__(None)); adsorbates are therefore registered and passed by name
@@ -74,8 +74,11 @@ def make_iso(rp, rl, rm, tunit, T, ads_props, mat_props, tag=''):
             _ADS[key] = pygaps.Adsorbate(key, store=True, **ads_props)
     a = key
     m = pygaps.Material('verif_mat' + tag, **mat_props)
-    df = pd.DataFrame({'pressure': P0, 'loading': L0, 'enthalpy': [5.0, 4.5, 4.0, 3.5, 3.0, 3.1, 3.3], 'note': list('abcdefg')})
-    iso = pygaps.PointIsotherm(isotherm_data=df, pressure_key='pressure', loading_key='loading', branch=list(BR),
+    P = P0 if P is None else P
+    L = L0 if L is None else L
+    B = BR if B is None else B
+    df = pd.DataFrame({'pressure': P, 'loading': L, 'enthalpy': [5.0 - 0.1 * i for i in range(len(P))], 'note': [chr(97 + i % 26) for i in range(len(P))]}, index=index)
+    iso = pygaps.PointIsotherm(isotherm_data=df, pressure_key='pressure', loading_key='loading', branch=(B if isinstance(B, str) else list(B)),
                                material=m, adsorbate=a, temperature=T,
                                pressure_mode=rp[0], pressure_unit=rp[1], loading_basis=rl[0], loading_unit=rl[1],
                                material_basis=rm[0], material_unit=rm[1], temperature_unit=tunit,
@@ -107,15 +110,17 @@ def ads_table(ads, temps):
                                              table(a.liquid_density), table(a.gas_density), table(a.liquid_molar_density), table(a.gas_molar_density))
 
 
-def coq_iso(rp, rl, rm, tunit, T, ads_name, mat_props):
+def coq_iso(rp, rl, rm, tunit, T, ads_name, mat_props, P=None, L=None, B=None):
     f = lambda d, n: ('(Some %s)' % flit(d[n])) if n in d else 'None'
     TK = T if tunit == 'K' else T + 273.15
     ads = ads_table(ads_name, sorted({float(T), float(TK)}))
     mat = '(mkMat QNum %s %s)' % (f(mat_props, 'density'), f(mat_props, 'molar_mass'))
     ql = lambda xs: '[' + '; '.join(flit(x) for x in xs) + ']'
     pu = rp[1] if rp[0] == 'absolute' else None   # constructor: relative -> unit None
-    return '(mkIso QNum %s %s %s %s %s %s %s %s %s %s %s %s [] None None)' % (
-        ostr(rp[0]), ostr(pu), ostr(rl[0]), ostr(rl[1]), ostr(rm[0]), ostr(rm[1]), ostr(tunit), flit(T), ads, mat, ql(P0), ql(L0))
+    bl = '[' + '; '.join('true' if b else 'false' for b in (BR if B is None else B)) + ']'
+    return '(mkIso QNum %s %s %s %s %s %s %s %s %s %s %s %s %s None None)' % (
+        ostr(rp[0]), ostr(pu), ostr(rl[0]), ostr(rl[1]), ostr(rm[0]), ostr(rm[1]), ostr(tunit), flit(T), ads, mat,
+        ql(P0 if P is None else P), ql(L0 if L is None else L), bl)
 
 
 def coq_call(c):
